@@ -31,3 +31,57 @@ def _neg_locslice(k):
 def desc_label_slice(rec, params):
     cs = (rec.get('case') or {}).get('cs') or {}
     return _neg_locslice(cs.get('rk')) or _neg_locslice(cs.get('ck'))
+
+
+@classifier
+def frame_value_single_row(rec, params):
+    cs = (rec.get('case') or {}).get('cs') or {}
+    exp, act = rec.get('expected') or {}, rec.get('actual') or {}
+    if cs.get('op') != 'f_assign' or (cs.get('val') or [None])[0] != 'frame' or act.get('k') != 'err' or exp.get('k') != 'frame':
+        return False
+    # exactly one row differs between source and expected result <=> one row addressed
+    src = cs['f']
+    changed = set()
+    for c0, c1 in zip(src['cols'], exp['cols']):
+        for i, (a, b) in enumerate(zip(c0['vals'], c1['vals'])):
+            if a != b and not (a[0] == 'f' and a[2] == 1 and b == ['i', a[1]]):
+                changed.add(i)
+    return len(changed) <= 1
+
+
+@classifier
+def mask_drops_name(rec, params):
+    cs = (rec.get('case') or {}).get('cs') or {}
+    exp, act = rec.get('expected') or {}, rec.get('actual') or {}
+    if cs.get('op') not in ('f_mask', 's_mask') or exp.get('k') != act.get('k'):
+        return False
+    e2 = dict(exp)
+    e2['name'] = ['none']
+    return e2 == act and exp.get('name') != ['none']
+
+
+@classifier
+def empty_axis_result(rec, params):
+    exp, act = rec.get('expected') or {}, rec.get('actual') or {}
+    cs = (rec.get('case') or {}).get('cs') or {}
+    src = cs.get('f')
+    if not src or exp.get('k') != 'frame' or act.get('k') != 'err':
+        return False
+    return len(exp['cols']) == 0 and len(exp['index']) != len(src['index'])
+
+
+@classifier
+def bloc_assign_widens_block(rec, params):
+    cs = (rec.get('case') or {}).get('cs') or {}
+    exp, act = rec.get('expected') or {}, rec.get('actual') or {}
+    if cs.get('op') != 'f_assign_bloc' or exp.get('k') != 'frame' or act.get('k') != 'frame':
+        return False
+    canon = lambda v: ['i', v[1]] if v[0] == 'f' and v[2] == 1 else v
+    if [[canon(v) for v in c['vals']] for c in exp['cols']] != [[canon(v) for v in c['vals']] for c in act['cols']]:
+        return False
+    # only dtypes differ, and only on columns with no True cell
+    mask = cs['mask']
+    for j, (e, a) in enumerate(zip(exp['cols'], act['cols'])):
+        if e['dt'] != a['dt'] and any(row[j] for row in mask):
+            return False
+    return True
